@@ -15,7 +15,7 @@ from hypothesis import strategies as st
 
 from vlib import gen, nx, solve
 from vlib.ref import brute_force, shr_box_size, violated_constraints
-from vlib.run import EngineError, Verdict, engine
+from vlib.run import BudgetExceeded, EngineError, Verdict, engine
 
 INTERPRETED = nx.INTERPRETED
 
@@ -72,8 +72,8 @@ def check_c01(case):
         tags.append("mp")
         try:
             sols, value, _ = _mp_run(pc, cfg, case["mp"], op, case.get("order"))
-        except EngineError as e:
-            return Verdict(True, "", False, tags + ["aborted:" + e.bucket])
+        except (EngineError, BudgetExceeded) as e:
+            return Verdict(True, "", False, tags + ["aborted:" + getattr(e, "bucket", "budget")])
         except BaseException as e:  # FakeDeadlock etc: not a C01 matter
             if type(e).__name__ != "FakeDeadlock":
                 raise
@@ -205,6 +205,8 @@ def check_c03(case):
             _, value, _ = _mp_run(pc, cfg, case["mp"], (direction, var), case.get("order"))
         except EngineError as e:
             return Verdict(False, "distributed optimisation raised %s" % e.bucket, nt, tags)
+        except BudgetExceeded as e:
+            return Verdict(False, "distributed optimisation does not terminate: %s" % e, nt, tags)
         except BaseException as e:
             if type(e).__name__ != "FakeDeadlock":
                 raise
